@@ -81,11 +81,11 @@ func Fixtures() []Fixture {
 	}
 }
 
-// EdgeAlphabet is a 13-instance alphabet centred on edge rows, marks on them and every kind of step that
+// EdgeAlphabet is a 14-instance alphabet centred on edge rows, marks on them and every kind of step that
 // reads a property of the current or of a marked element; it is enumerated deeper than the full alphabet.
 func EdgeAlphabet() []refsem.Step {
 	return []refsem.Step{
-		st("outE"), st("inE"), st("out"), st("in"),
+		st("outE"), st("inE"), st("bothE"), st("out"), st("in"),
 		st("hasLabel", "x"), has(gripql.Eq("w", 1.0)), st("hasKey", "w"),
 		st("as", "m1"), st("select", "m1"),
 		st("distinct", "$m1.w"), has(gripql.Eq("$m1.w", 1.0)), st("distinct", "w"),
@@ -198,6 +198,44 @@ func PathPrograms(maxMoves int) [][]refsem.Step {
 				withMark := append(append([]refsem.Step{}, p[:2]...), st("as", "m1"))
 				withMark = append(append(withMark, p[2:]...), st("path"))
 				out = append(out, withMark)
+			}
+		}
+		level = next
+	}
+	return out
+}
+
+// MarkPrograms: programs over a 9-instance alphabet in which the two mark names are set, set AGAIN on a
+// different row and read back (select of one or both, a filter and a distinct on a mark's field): what a
+// mark holds after it has been re-assigned is invisible to programs that use every name once.
+func MarkPrograms(maxLen int) [][]refsem.Step {
+	alpha := []refsem.Step{
+		st("out"), st("in"), st("outE"),
+		st("as", "m1"), st("as", "m2"),
+		st("select", "m1"), st("select", "m1", "m2"),
+		has(gripql.Eq("$m1._gid", "a")), st("distinct", "$m1._gid"),
+	}
+	var out [][]refsem.Step
+	level := [][]refsem.Step{{st("V")}, {st("V", "a")}}
+	for l := 2; l <= maxLen; l++ {
+		var next [][]refsem.Step
+		for _, p := range level {
+			for _, s := range alpha {
+				np := append(append([]refsem.Step{}, p...), s)
+				if ty, _, _ := refsem.TypeOf(np); ty == refsem.WellTyped {
+					next = append(next, np)
+				}
+			}
+		}
+		for _, p := range next {
+			marks := 0
+			for _, s := range p {
+				if s.Op == "as" {
+					marks++
+				}
+			}
+			if marks >= 2 { // only programs that mark at least twice are new with respect to the other sweeps
+				out = append(out, p)
 			}
 		}
 		level = next
